@@ -38,9 +38,10 @@ type mAdd struct {
 	Cells []string `json:"cells"`
 }
 type mColAdd struct {
-	B    int    `json:"b"`
-	Name string `json:"name"`
-	At   int    `json:"at"`
+	B     int    `json:"b"`
+	Name  string `json:"name"`
+	At    int    `json:"at"`
+	Plain bool   `json:"plain,omitempty"` // cell values do not depend on the column name (two branches adding different columns then hold byte-identical rows)
 }
 type mColOp struct {
 	B    int    `json:"b"`
@@ -115,7 +116,21 @@ func genMergeScenario(r *Rand, tier string) MergeScenario {
 	cellOwner := map[[2]int]int{}
 	colOwner := map[int]int{} // col -> branch that removes/renames it
 	// column-level ops (only with a key: keyless tables need equal columns)
-	if len(pkIdx) > 0 && r.Chance(0.45) {
+	multiCol := false
+	if len(pkIdx) > 0 && editBranches >= 2 && !sc.Identical && r.Chance(0.12) {
+		// two branches each add a column of their own
+		multiCol = true
+		colOpBranch = 0
+		at := r.Intn(len(cols) + 1)
+		plain := r.Chance(0.7)
+		for b := 0; b < 2; b++ {
+			a := at
+			if r.Chance(0.2) {
+				a = r.Intn(len(cols) + 1)
+			}
+			sc.ColAdds = append(sc.ColAdds, mColAdd{B: b, Name: fmt.Sprintf("new%d", b), At: a, Plain: plain})
+		}
+	} else if len(pkIdx) > 0 && r.Chance(0.45) {
 		colOpBranch = r.Intn(editBranches)
 		for k := r.Range(1, 2); k > 0; k-- {
 			b := colOpBranch
@@ -177,7 +192,7 @@ func genMergeScenario(r *Rand, tier string) MergeScenario {
 				if _, ok := rowOwner[row]; ok || touched {
 					continue
 				}
-				if colOpBranch >= 0 && b != colOpBranch {
+				if (colOpBranch >= 0 && b != colOpBranch) || multiCol {
 					continue // a row removal next to another branch's column change is a (legitimate) conflict
 				}
 				rowOwner[row] = b
@@ -418,7 +433,24 @@ func execC05(t *testing.T, raw json.RawMessage, res *Result) {
 		res.Invalid("keyless tables: a cell edit is a remove plus an add")
 		return
 	}
-	if hasColOps && !sc.Identical {
+	addBranches := map[int]bool{}
+	for _, c := range sc.ColAdds {
+		addBranches[c.B] = true
+	}
+	if hasColOps && !sc.Identical && len(addBranches) >= 2 {
+		// several branches add columns: nothing else may touch the layout or remove rows
+		if len(sc.ColRemoves)+len(sc.ColMoves)+len(sc.ColRenames) > 0 || len(sc.Removes) > 0 {
+			res.Invalid("column adds in several branches next to other layout changes or row removals")
+			return
+		}
+		for _, c := range sc.Conflicts {
+			if c.Kind == "remove-modify" {
+				res.Invalid("remove-modify with column ops")
+				return
+			}
+		}
+		res.probe("column_adds_in_two_branches", 1)
+	} else if hasColOps && !sc.Identical {
 		colB := -1
 		for _, lst := range [][]int{colOpBranches(sc.ColAdds), opBranches(sc.ColRemoves), opBranches(sc.ColMoves), opBranches(sc.ColRenames)} {
 			for _, b := range lst {
@@ -583,7 +615,18 @@ func execC05(t *testing.T, raw json.RawMessage, res *Result) {
 		}
 		addKeys[k] = true
 	}
-	addedVal := func(name string, key rowKey) string { return "A:" + name + ":" + fmt.Sprintf("%x", meowSum([]byte(key))[:3]) }
+	plainCols := map[string]bool{}
+	for _, c := range sc.ColAdds {
+		if c.Plain {
+			plainCols[c.Name] = true
+		}
+	}
+	addedVal := func(name string, key rowKey) string {
+		if plainCols[name] {
+			return "P:" + fmt.Sprintf("%x", meowSum([]byte(key))[:3])
+		}
+		return "A:" + name + ":" + fmt.Sprintf("%x", meowSum([]byte(key))[:3])
+	}
 
 	// ---- build branch tables ----
 	type branchTable struct {
